@@ -12,14 +12,14 @@ PROPERTY_ID = "C04"
 LEVEL = "exploration"
 RULE = ("One real Zeroconf in the simulator with 1..3 AsyncServiceBrowsers over 1..2 unrelated types (spy ServiceListeners), "
         "started before/while/after records exist and cancelled at random; response datagrams injected from a fake peer: new, "
-        "refreshed, goodbye, flush-bit, duplicated-in-datagram and later re-cased PTRs, plus SRV/TXT/A/AAAA for known and unknown "
+        "refreshed, goodbye, flush-bit, duplicated-in-datagram and later re-cased PTRs (in one history in eight some of them owned by a subtype of the browsed type), plus SRV/TXT/A/AAAA for known and unknown "
         "instances, TTL in {0,1,2,1125,4500}; clock advances from 0 ms to 2 h chosen around the PTR floor, 4500 s expiry and the 10 s "
         "purge (the engine's real purge timer runs). Monitors: per (browser,type,instance) the Added/Removed string matches "
         "(A R)* A?; at every quiescent point (after each datagram/advance) the live set of each browser equals the PTR aliases held "
         "in the cache for that type (case-insensitive); inside add_service every non-zero-TTL record of the triggering datagram is "
         "found in the cache; no callback after async_cancel returned. Distinct = (event kind, cache relation, expiry path, "
         "#browsers) classes.")
-ASSUMPTIONS = ["PTR owner names are spelled exactly as the browsed type; no sub/super-types; no case-variants within one datagram;"
+ASSUMPTIONS = ["PTR owner names are spelled exactly as the browsed type (one history in eight also has pointers owned by a subtype of the browsed type: known finding F44); browsed types are not sub/super-types of one another; no case-variants within one datagram;"
                " browsers are not created while an expired-but-unpurged PTR of their type is cached (generator checks; discards counted)"]
 
 BASE_TYPES = ["_http._tcp.local.", "_ipp._tcp.local."]
@@ -38,6 +38,10 @@ def set_flavour(plain_subtype: bool) -> None:
     for t in TYPES:
         base = BASE_TYPES[0] if t == PLAIN_SUBTYPE else t
         INST[t] = ["one." + base, "two." + base, "Three." + base]
+# an ordinary subtype of the first base type: in one history in eight some pointers to the instances of that type are owned by
+# this name (a responder that advertises its instances under a subtype as well, RFC 6763 section 7.1)
+SUB_OWNER = "_printer._sub._http._tcp.local."
+SUB_POINTERS = [False]
 HOSTS = ["h1.local.", "h2.local."]
 TTLS = [0, 1, 2, 1125, 4500]
 ADV = [0, 1, 500, 999, 1000, 1001, 5000, 9999, 10000, 10001, 60000, 843750, 1124000, 1125000, 1126000, 1135000, 3375000, 4499000, 4500000, 4510000, 7200000]
@@ -94,6 +98,7 @@ class Run:
         self.next_bid = 0
         self.discarded_starts = 0
         self.length = 0
+        self.sub_seen: Set[str] = set()      # instances that were advertised under the subtype at some point of this history
 
     def viol(self, monitor: str, kind: str, detail: str, **sig: Any) -> None:
         self.res.violation(monitor, kind, detail, sig, {"seed": self.seed, "length": self.length, "steps": self.steps[-25:]})
@@ -110,11 +115,12 @@ class Run:
         key = (bid, type_, name.lower())
         prev = self.state.get(key)
         self.res.mon("c04.alternate")
+        mech = {"mechanism": "pointer_owned_by_subtype"} if name.lower() in self.sub_seen else {}
         if kind == "A" and prev == "A":
-            self.viol("c04.alternate", "double_add", "browser %d: Added(%s) twice without Removed in between" % (bid, name), cb="AA")
+            self.viol("c04.alternate", "double_add", "browser %d: Added(%s) twice without Removed in between" % (bid, name), cb="AA", **mech)
         elif kind == "R" and prev != "A":
             self.viol("c04.alternate", "remove_without_add", "browser %d: Removed(%s) %s" % (bid, name, "twice" if prev == "R" else "before any Added"),
-                      cb=("RR" if prev == "R" else "R-first"))
+                      cb=("RR" if prev == "R" else "R-first"), **mech)
         self.state[key] = kind
         if kind == "A":
             # the lookup an application makes from add_service: a ServiceInfo for the reported (type, name) pair, filled
@@ -151,9 +157,10 @@ class Run:
                 self.res.mon("c04.live_equals_cache")
                 live, cached = self.live(bid, t), self.cached_aliases(t)
                 if live != cached:
+                    mech = {"mechanism": "pointer_owned_by_subtype"} if (live ^ cached) <= self.sub_seen else {}
                     self.viol("c04.live_equals_cache", "live_differs_from_cache",
                               "%s: browser %d type %s reports live %r but cache holds %r" % (where, bid, t, sorted(live), sorted(cached)),
-                              diff=("stale_live" if live - cached else "missed_add"))
+                              diff=("stale_live" if live - cached else "missed_add"), **mech)
 
     def has_expired_unpurged(self, types: List[str]) -> bool:
         import zeroconf._dns as d
@@ -200,6 +207,9 @@ def gen_dgram(rng: random.Random, known_instances: List[Tuple[str, str]]) -> Lis
                 if prev[0][0] == "PTR":
                     out.append((prev[0], prev[1] if rng.random() < 0.7 else rng.choice(TTLS), prev[2], "dup"))
                     continue
+            if SUB_POINTERS[0] and t == BASE_TYPES[0] and rng.random() < 0.35:
+                out.append((("PTR", SUB_OWNER, (inst,)), ttl, flush, "subptr"))
+                continue
             out.append((("PTR", t, (inst,)), ttl, flush, "ptr"))
         elif r < 0.75:
             inst = rng.choice(INST[t])
@@ -220,7 +230,8 @@ def run_history(res: Result, seed: int, length: int) -> None:
     run.length = length
     rng = run.rng
     set_flavour(random.Random(seed ^ 0x5B).random() < 0.15)
-    run.steps.append(["flavour", list(TYPES)])
+    SUB_POINTERS[0] = TYPES[0] == BASE_TYPES[0] and random.Random(seed ^ 0x5C).random() < 0.125
+    run.steps.append(["flavour", list(TYPES), "subtype pointers" if SUB_POINTERS[0] else "-"])
     Spy = make_listener_class()
     res.evaluations += 1
     with simnet.Sim(seed & 0xFFFF) as sim:
@@ -259,6 +270,8 @@ def run_history(res: Result, seed: int, length: int) -> None:
                     run.current_dgram = [((k, o.lower(), tuple(x.lower() if isinstance(x, str) else x for x in rd)), ttl) for (k, o, rd), ttl, _f, _t in recs]
                     run.steps.append(["dgram", [[list(map(str, ident)), ttl, flush] for ident, ttl, flush, _ in recs]])
                     pre = {t: run.cached_aliases(t) for t in TYPES}
+                    pre[SUB_OWNER] = run.cached_aliases(SUB_OWNER)
+                    run.sub_seen |= {ident[2][0].lower() for ident, _ttl, _f, tag in recs if tag == "subptr"}
                     sim.net.inject_now(host, data, ("10.0.0.77", 5353))
                     run.current_dgram = None
                     for ident, ttl, flush, tag in recs:
